@@ -1,1 +1,48 @@
-Example C16_placeholder : True. Proof. exact I. Qed.
+(* Properties_C16.v — C16: a context owns a private copy of its schema and shares nothing. *)
+From Coq Require Import List Arith NArith ZArith Bool.
+From Coq.Strings Require Import Byte.
+From LC Require Import Bytes Store Dup TreeProofs.
+Import ListNotations.
+
+(* cfg_dupopt_array, written field by field as in confuse.c (name, sub-options recursively, both default
+   strings and the comment are copied; scalars and callbacks by value), leaves NO reference into caller
+   memory, for every declaration tree of any depth and every caller memory. *)
+Theorem C16_no_alias : forall m o, own_o (dup_o m o) = true.
+Proof. exact dup_no_alias. Qed.
+Print Assumptions C16_no_alias.
+
+(* Hence whatever the caller later does to its memory (overwrite, free: any other memory m2), the
+   context reads its declarations the same. *)
+Theorem C16_poison_inert : forall o, own_o o = true -> forall m1 m2, view_o m1 o = view_o m2 o.
+Proof. exact own_view_independent. Qed.
+Print Assumptions C16_poison_inert.
+
+(* And what it reads is what the declarations said at cfg_init time: sub-options and defaults of every
+   section instance created later come from this copy. *)
+Theorem C16_copy_faithful : forall m o v, view_o m o = Some v -> forall m', view_o m' (dup_o m o) = Some v.
+Proof. exact dup_view_faithful. Qed.
+Print Assumptions C16_copy_faithful.
+
+(* Frame: an update inside one section instance — values, annotations, callbacks, free-form keys, all
+   are updates of that instance's subtree — is invisible in every instance whose position differs,
+   e.g. the sibling instance of the same multi section. *)
+Theorem C16_siblings_frame :
+  forall common c a p b q f,
+  a <> b -> get_sec (upd_sec c (common ++ a :: p) f) (common ++ b :: q) = get_sec c (common ++ b :: q).
+Proof. exact get_upd_sec_diverge. Qed.
+Print Assumptions C16_siblings_frame.
+
+Theorem C16_options_frame :
+  forall common c a p b q i j f,
+  a <> b -> get_opt (upd_opt c (common ++ a :: p, i) f) (common ++ b :: q, j) = get_opt c (common ++ b :: q, j).
+Proof. exact get_opt_upd_opt_diverge. Qed.
+Print Assumptions C16_options_frame.
+
+(* non-vacuity: a declaration whose every pointer field lives in caller memory, two levels deep *)
+Example C16_example :
+  let m := {| cm_str := fun a => Some [Nb (N.of_nat (97 + a))]; cm_arr := fun _ => None |} in
+  let inner := DOpt (SCaller 1) KStr 0 ANull 0 0 false (SCaller 2) SNull SNull cbset0 in
+  let o := DOpt (SCaller 0) KSec 1 (ASub true [inner]) 0 0 false SNull (SCaller 3) (SCaller 4) cbset0 in
+  own_o o = false /\ own_o (dup_o m o) = true /\
+  view_o {| cm_str := fun _ => None; cm_arr := fun _ => None |} (dup_o m o) = view_o m o.
+Proof. vm_compute. repeat split. Qed.
